@@ -530,3 +530,36 @@ def run(ctx):
         schedules_note="all interleavings are covered only by the Coq theorems over the abstract model; the race detector explores the schedules that occur",
     ))
     return dict(violations=viol, known=known, coverage=cov)
+
+
+def replay(ctx, path):
+    """Re-run the test process named in a replay file (up to 5 attempts: the schedule is not reproducible
+    bit for bit), or re-evaluate the lock table when the replay is a static one. Returns the failures."""
+    rep = json.load(open(path))
+    det = rep.get("detail", {})
+    fi = det.get("failing_input") or {}
+    ks = [] if os.environ.get("VERIF_C18_IGNORE_KNOWN") else known_entries()
+    fails = []
+    if fi.get("test"):
+        d = vlib.scratch()
+        bins = build_tests(d)
+        for name, (binp, cwd) in bins.items():
+            if fi["test"] in list_tests(binp, cwd):
+                for attempt in range(5):
+                    r = run_one((binp, cwd, fi["test"], int(fi.get("GOMAXPROCS", 4)), int(fi.get("VERIF_C18_SEED", 1)) + attempt,
+                                 int(fi.get("VERIF_C18_ITERS", 1)), 600))
+                    v, _ = classify(r, ks)
+                    if v:
+                        fails = v
+                        break
+        for f in fails:
+            print("REPRODUCED: " + f["what"])
+    else:
+        viol, known, cov = [], [], dict(evaluations=0)
+        st = static_half(ctx, viol, known, cov, ks)
+        fails = viol + (st["static_bad"] + st["pv_bad"] if st else [])
+        for f in fails:
+            print("REPRODUCED (static): " + (f.get("what") or f.get("location") or f.get("variable")))
+    if not fails:
+        print("not reproduced")
+    return fails
